@@ -444,7 +444,7 @@ func streamHTTP(o opts) {
 					status = 200
 				}
 				if shape == 3 {
-					acts = append(acts, hact{kind: 4, code: 500}) // superfluous second status
+					acts = append(acts, hact{kind: 4, code: pick(r, []int{500, 404, 201, 200, 410})}) // superfluous second status: ignored by net/http, must be ignored by the snapshot too
 				}
 				if shape == 4 {
 					acts = append(acts, hact{kind: 6})
